@@ -3,6 +3,7 @@ package wire
 import (
 	"bufio"
 	"bytes"
+	"errors"
 	"net/http"
 	"sort"
 	"strconv"
@@ -10,6 +11,7 @@ import (
 	"time"
 
 	"github.com/gofiber/fiber/v3"
+	recovermw "github.com/gofiber/fiber/v3/middleware/recover"
 	"github.com/valyala/fasthttp"
 
 	"verifharness/internal/drive"
@@ -37,7 +39,14 @@ type flashSpec struct {
 	// chained redirects: each intermediate hop consumes what arrives, attaches hops[i] and
 	// redirects on (the last one to pathB); the redirecting handler A targets the first hop
 	hops [][]fmsg
+	// how the consuming handler ends after it was handed the messages: "" = 200, "error" = returns
+	// an error the app's error handler turns into a response, "error-handler-fails" = returns an
+	// error and the app's ErrorHandler itself returns an error (fiber's fallback 500),
+	// "panic-recovered" = panics under the recover middleware
+	bMode string
 }
+
+const routeParamTarget = "/users/42/list?sort=asc&tab=1"
 
 var flashPathsMid = []string{"/confirm", "/users/confirm", "/x/y/confirm", "/step/two/of/three"}
 
@@ -93,7 +102,14 @@ type flashApp struct {
 
 func buildFlashApp(spec *flashSpec, lookKeys []string) *flashApp {
 	fa := &flashApp{rep: &bReport{}, lookKeys: lookKeys}
-	app := fiber.New(fiber.Config{ReadBufferSize: 16384})
+	cfg := fiber.Config{ReadBufferSize: 16384}
+	if spec.bMode == "error-handler-fails" {
+		cfg.ErrorHandler = func(fiber.Ctx, error) error { return errors.New("the error handler failed too") }
+	}
+	app := fiber.New(cfg)
+	if spec.bMode == "panic-recovered" {
+		app.Use(recovermw.New())
+	}
 	a := func(c fiber.Ctx) error {
 		r := c.Redirect()
 		if spec.status != 0 {
@@ -115,8 +131,13 @@ func buildFlashApp(spec *flashSpec, lookKeys []string) *flashApp {
 			// observe the binder alone on the same request: this is the data that
 			// WithInput attaches (binding itself is C11's business)
 			in := map[string]string{}
-			ct := c.Get(fiber.HeaderContentType)
-			if strings.HasPrefix(ct, fiber.MIMEApplicationForm) || strings.HasPrefix(ct, fiber.MIMEMultipartForm) {
+			// media types are case-insensitive and may carry parameters
+			ct := strings.ToLower(c.Get(fiber.HeaderContentType))
+			if i := strings.IndexByte(ct, ';'); i >= 0 {
+				ct = ct[:i]
+			}
+			ct = strings.TrimSpace(ct)
+			if ct == fiber.MIMEApplicationForm || ct == fiber.MIMEMultipartForm {
 				_ = c.Bind().Form(in)
 			} else {
 				_ = c.Bind().Query(in)
@@ -130,6 +151,8 @@ func buildFlashApp(spec *flashSpec, lookKeys []string) *flashApp {
 		switch spec.kind {
 		case "route":
 			return r.Route("target:" + spec.b())
+		case "route-params":
+			return r.Route("target-param", fiber.RedirectConfig{Params: fiber.Map{"id": "42"}, Queries: map[string]string{"tab": "1", "sort": "asc"}})
 		case "back-referer":
 			return r.Back("/fallback-not-used")
 		case "back-fallback":
@@ -172,8 +195,15 @@ func buildFlashApp(spec *flashSpec, lookKeys []string) *flashApp {
 	}
 	b := func(c fiber.Ctx) error {
 		observe(c)
+		switch spec.bMode {
+		case "error", "error-handler-fails":
+			return fiber.NewError(fiber.StatusTeapot, "the consuming handler failed")
+		case "panic-recovered":
+			panic("the consuming handler panicked")
+		}
 		return c.SendString("b")
 	}
+	app.Get("/users/:id/list", b).Name("target-param")
 	for _, p := range flashPathsB[:3] {
 		app.Get(p, b).Name("target:" + p)
 	}
@@ -218,7 +248,7 @@ func (fa *flashApp) deliverInProcess(e *ev.Env, c *ev.Case, path string, cookie 
 	var fctx fasthttp.RequestCtx
 	fctx.Init(&req, drive.DefaultRemote, nil)
 	h := fa.app.Handler()
-	panicked = e.Guard(c, "flash", hexOf(cookie), func() { h(&fctx) })
+	panicked = guard(e, c, "flash", hexOf(cookie), func() { h(&fctx) })
 	return fa.rep.ran, panicked
 }
 
@@ -234,7 +264,7 @@ func (fa *flashApp) serveAt(e *ev.Env, c *ev.Case, path string, cookie []byte, h
 	if e.Quick() || e.Only != "" || (len(cookie) > 0 && cookie[0] >= 0xdc) {
 		e.Journal("B " + hexOf(req))
 	}
-	panicked = e.Guard(c, "flash", hexOf(req), func() { out, _ = fa.w.Serve(req, nil) })
+	panicked = guard(e, c, "flash", hexOf(req), func() { out, _ = fa.w.Serve(req, nil) })
 	if panicked {
 		return
 	}
@@ -480,6 +510,16 @@ func sameTarget(loc, path string) bool {
 	if loc == path {
 		return true
 	}
+	if lp, lq, ok := strings.Cut(loc, "?"); ok {
+		// query pairs come from a map: any order
+		if pp, pq, ok2 := strings.Cut(path, "?"); ok2 {
+			a, b := strings.Split(lq, "&"), strings.Split(pq, "&")
+			sort.Strings(a)
+			sort.Strings(b)
+			return strings.Join(a, "&") == strings.Join(b, "&") && sameTarget(lp, pp)
+		}
+		return false
+	}
 	for _, pre := range []string{"http://flash.example.com", "https://flash.example.com", "//flash.example.com"} {
 		if loc == pre+path {
 			return true
@@ -585,6 +625,12 @@ func runFlash(e *ev.Env) {
 	for _, st := range []int{301, 303, 307, 308} {
 		script("status-"+itoa(st), &flashSpec{msgs: []fmsg{{Key: "notice", Value: "saved", Level: 'A'}}, noLevel: []bool{false}, status: st}, getA)
 	}
+	script("redirect-route-params-queries", &flashSpec{msgs: []fmsg{{Key: "notice", Value: "saved", Level: 'A'}}, noLevel: []bool{false}, kind: "route-params", pathB: routeParamTarget}, getA)
+	script("consumer-error-handler-fails", &flashSpec{msgs: []fmsg{{Key: "notice", Value: "saved", Level: 'A'}}, noLevel: []bool{false}, bMode: "error-handler-fails"}, getA)
+	script("consumer-returns-error", &flashSpec{msgs: []fmsg{{Key: "notice", Value: "saved", Level: 'A'}}, noLevel: []bool{false}, bMode: "error"}, getA)
+	script("consumer-panics-recovered", &flashSpec{msgs: []fmsg{{Key: "notice", Value: "saved", Level: 'A'}}, noLevel: []bool{false}, bMode: "panic-recovered"}, getA)
+	script("old-input-form-with-charset", &flashSpec{withInput: true},
+		[]byte("POST /a HTTP/1.1\r\nHost: flash.example.com\r\nContent-Type: application/x-www-form-urlencoded; charset=UTF-8\r\nContent-Length: 9\r\n\r\nname=John"))
 	script("redirect-route", &flashSpec{msgs: []fmsg{{Key: "notice", Value: "saved", Level: 'A'}}, noLevel: []bool{false}, kind: "route"}, getA)
 	script("redirect-back-referer", &flashSpec{msgs: []fmsg{{Key: "notice", Value: "saved", Level: 'A'}}, noLevel: []bool{false}, kind: "back-referer"}, getA)
 	e.Corpus("chained-redirect-two-hops", func(c *ev.Case) {
@@ -628,10 +674,14 @@ func runFlash(e *ev.Env) {
 		}
 		spec.pathA, spec.pathB = gen.Pick(r, flashPathsA), gen.Pick(r, flashPathsB)
 		spec.status = gen.Pick(r, []int{0, 0, 301, 302, 303, 307, 308})
-		spec.kind = gen.Pick(r, []string{"", "", "route", "back-referer", "back-fallback"})
-		if spec.kind == "route" {
+		spec.kind = gen.Pick(r, []string{"", "", "route", "route-params", "back-referer", "back-fallback"})
+		switch spec.kind {
+		case "route":
 			spec.pathB = gen.Pick(r, flashPathsB[:3]) // Route() yields the registered path
+		case "route-params":
+			spec.pathB = routeParamTarget
 		}
+		spec.bMode = gen.Pick(r, []string{"", "", "", "error", "error-handler-fails", "panic-recovered"})
 		reqA := []byte("GET " + spec.pathA + " HTTP/1.1\r\nHost: flash.example.com\r\n\r\n")
 		if !wireSafe && r.Chance(1, 2) {
 			spec.withInput = true
@@ -899,7 +949,8 @@ func inputRequest(r *gen.Rand, path string, must []string) []byte {
 			p = append(p, ks[i]+"="+pctAll(vs[i]))
 		}
 		body := strings.Join(p, "&")
-		return []byte("POST " + path + " HTTP/1.1\r\nHost: flash.example.com\r\nContent-Type: application/x-www-form-urlencoded\r\nContent-Length: " + itoa(len(body)) + "\r\n\r\n" + body)
+		return []byte("POST " + path + " HTTP/1.1\r\nHost: flash.example.com\r\nContent-Type: " + gen.Pick(r, []string{"application/x-www-form-urlencoded", "application/x-www-form-urlencoded; charset=UTF-8",
+			"application/x-www-form-urlencoded;charset=utf-8", "application/x-www-form-urlencoded ; charset=utf-8", "Application/X-WWW-Form-Urlencoded"}) + "\r\nContent-Length: " + itoa(len(body)) + "\r\n\r\n" + body)
 	default:
 		var b strings.Builder
 		for i := range ks {
@@ -907,7 +958,8 @@ func inputRequest(r *gen.Rand, path string, must []string) []byte {
 			b.WriteString("--XbOuNdArY\r\nContent-Disposition: form-data; name=\"" + ks[i] + "\"\r\n\r\n" + v + "\r\n")
 		}
 		b.WriteString("--XbOuNdArY--\r\n")
-		return []byte("POST " + path + " HTTP/1.1\r\nHost: flash.example.com\r\nContent-Type: multipart/form-data; boundary=XbOuNdArY\r\nContent-Length: " + itoa(b.Len()) + "\r\n\r\n" + b.String())
+		return []byte("POST " + path + " HTTP/1.1\r\nHost: flash.example.com\r\nContent-Type: " + gen.Pick(r, []string{"multipart/form-data; boundary=XbOuNdArY", "multipart/form-data;boundary=XbOuNdArY",
+			"multipart/form-data; charset=utf-8; boundary=XbOuNdArY", "Multipart/Form-Data; boundary=XbOuNdArY", "multipart/form-data; boundary=\"XbOuNdArY\""}) + "\r\nContent-Length: " + itoa(b.Len()) + "\r\n\r\n" + b.String())
 	}
 }
 
@@ -999,7 +1051,7 @@ func flashScript(e *ev.Env, c *ev.Case, spec *flashSpec, reqA []byte) {
 		e.Journal("A " + hexOf(reqA))
 	}
 	var out1 []byte
-	if e.Guard(c, "flash", detail, func() { out1, _ = fa.w.Serve(reqA, nil) }) {
+	if guard(e, c, "flash", detail, func() { out1, _ = fa.w.Serve(reqA, nil) }) {
 		return
 	}
 	e.Eval(1)
@@ -1151,7 +1203,9 @@ func flashScript(e *ev.Env, c *ev.Case, spec *flashSpec, reqA []byte) {
 		case perr2 != nil:
 			e.Violation(c, "flash|response-malformed|"+perr2.Class, "response of handler B rejected by the strict parser: "+perr2.Error(), detail)
 			return
-		case len(rs2) == 1 && rs2[0].Status == 400 && !rep.ran:
+		case len(rs2) == 1 && !rep.ran && (rs2[0].Status == 400 || (rs2[0].Status == 500 && spec.bMode == "error-handler-fails")):
+			// fasthttp refused the request head (with a failing ErrorHandler that 400 comes out
+			// as fiber's fallback 500)
 			e.Stat("refused_by_server", 1)
 			if hasCTL(cookie) {
 				e.Stat("refused_cookie_has_ctl", 1)
